@@ -499,11 +499,61 @@ def gen_ha(rng):
     return " ".join(toks) + " ; " + " ; ".join(ops)
 
 
+def gen_ppp6(rng):
+    """PPPoE, DHCPv6 over PPP (internal/pppoe/dhcpv6.go): SOLICIT / REQUEST / RELEASE through handleDHCPv6 ->
+    forwardDHCPv6 (ResolveV6 on the session's allocation context, local provider, bindDHCPv6 / unbindDHCPv6), PPP
+    terminate followed by the component's releaseDHCPv6Lease, re-SOLICIT after a RELEASE (the context keeps its
+    address), AAA static IPv6 addresses / prefixes, other subscribers connecting in between.
+    Domain: the pools are larger than the number of subscribers, so ResolveV6 always resolves - the unresolved path of
+    /repo HEAD (finding pppoe-dhcp6-unresolved-answered-by-provider) is answered from the provider's private pool
+    view, which the model does not reproduce; fixes/C02_pppoe_dhcp6_no_answer_when_unresolved.witness holds that case."""
+    ns = rng.randint(2, 3)
+    a6 = V6BASE + (5 << 64) + 0x40
+    pd = V6BASE + (0x300 << 64)
+    toks = ["P6", "3", "0", "0", str(a6), str(a6 + ns + 1), "PD", "4", "0", "0", str(pd), "62", "64"]
+    if rng.random() < 0.5:
+        toks += ["P4", "1", "0", "0", str(V4BASE + 256 * 11 + 1), str(V4BASE + 256 * 11 + ns + 1), "-"]
+        toks += ["G", "0", "0", "0"]
+    else:
+        toks += ["G", "0", "-", "0"]
+    for k in range(1, ns + 1):
+        toks += ["S", str(k), "P", "0", str(k)]
+    ops, live, dead, have6 = [], [], [], set()
+    order = list(range(1, ns + 1))
+    rng.shuffle(order)
+    pending = list(order)
+    for _ in range(rng.randint(6, 14)):
+        c = rng.random()
+        if pending and (c < 0.3 or not live):
+            k = pending.pop(0)
+            st6 = str(a6 + ns + 1) if rng.random() < 0.15 and k == order[0] else "-"
+            ops.append("PA %d 0 - %s - - - -" % (k, st6))
+            live.append(k)
+        elif live and c < 0.55:
+            k = rng.choice(live)
+            ops.append("PS %d" % k)
+            have6.add(k)
+        elif live and c < 0.8:
+            k = rng.choice(live)
+            ops.append("PV %d" % k)
+            have6.add(k)
+        elif live and c < 0.9 and not pending and all(k in have6 for k in live):
+            # a RELEASE frees the address while the context keeps it: a subscriber that connects afterwards is given it
+            # (lowest free first; likewise a prefix allocated by another subscriber's first SOLICIT) and the releaser's
+            # next SOLICIT is unresolved - outside the domain, see above
+            ops.append("PR %d" % rng.choice(live))
+        elif live and c >= 0.9:
+            k = live.pop(rng.randrange(len(live)))
+            ops += ["PT %d" % k, "PX %d" % k]
+            dead.append(k)
+    return " ".join(toks) + " ; " + " ; ".join(ops)
+
+
 def gen_cases(rng, tier, budget):
     n = budget or (700 if tier == "quick" else 20000)
     return ([gen_one(rng) for _ in range(n)] + [gen_churn(rng, False) for _ in range(n // 5)] +
             [gen_b(rng) for _ in range(n // 2)] + [gen_churn(rng, True) for _ in range(n // 7)] +
-            [gen_reauth(rng) for _ in range(n // 7)] + [gen_ipcp(rng) for _ in range(n // 10)] + [gen_ha(rng) for _ in range(n // 10)])
+            [gen_reauth(rng) for _ in range(n // 7)] + [gen_ipcp(rng) for _ in range(n // 10)] + [gen_ha(rng) for _ in range(n // 10)] + [gen_ppp6(rng) for _ in range(n // 10)])
 
 
 # ------------------------------------------------------------------ parsing helpers
@@ -1010,7 +1060,7 @@ def distribution(cases, impl):
         for s in segs(o)[1:]:
             r = s.split(" | ")[0].split()
             k = r[0] if r else "?"
-            if k in ("id", "iq", "is", "iv", "pi") and len(r) > 1:
+            if k in ("id", "iq", "is", "iv", "pi", "ps", "pv") and len(r) > 1:
                 k += ":" + r[1].split(":")[0]
             if k == "pa":
                 k += ":fallback" if "told=%d" % FALLBACK in s else (":none" if "told=nil" in s else ":addr")
